@@ -64,7 +64,8 @@ namespace Dune
             throw pybind11::value_error( "Incompatible buffer format." );
           if( info.ndim != 1 )
             throw pybind11::value_error( "Only one-dimensional buffers can be converted into FieldVector." );
-          const ssize_t stride = info.strides[ 0 ] / sizeof( K );
+          // signed division: sizeof( K ) is unsigned and would turn a negative byte stride (reversed view) into a huge positive one
+          const ssize_t stride = info.strides[ 0 ] / static_cast< ssize_t >( sizeof( K ) );
           const ssize_t sz = std::min<ssize_t>( size, info.shape[ 0 ] );
 
           FV *self = new FV( K( 0 ) );
